@@ -193,7 +193,9 @@ def run_random(run, prop, ntraces, nops, seed, big=True):
     r, reached = validate(traces, focus)
     # the binding must be real: a corrupted record has to be rejected where it was corrupted
     import copy
-    probe = copy.deepcopy([t for t in traces if len(t['events']) >= 3][:1])
+    # (control on a trace that was accepted in full, so that the rejection is due to the corruption)
+    probe = copy.deepcopy([t for t, got in zip(traces, reached)
+                           if len(t['events']) >= 3 and got == len(t['events']) + 1][:1])
     if probe:
         k = len(probe[0]['events']) // 2
         post = probe[0]['events'][k]['post']
